@@ -735,6 +735,14 @@ class Gen:
         """generated line -> (item name, file, source line) or None."""
         for it in self.items:
             if it["gen_start"] <= gen_line <= it["gen_end"]:
+                if it["kind"] == "static":
+                    # table rows: name the generated per-row lemma, keep the file of the static
+                    k = min(gen_line, len(self.lines)) - 1
+                    while k >= 0:
+                        m = re.search(r"\bfn\s+(\w+)", self.lines[k])
+                        if m:
+                            return "lemma::" + m.group(1), it["file"], it["src_line"]
+                        k -= 1
                 lm = it["linemap"]
                 k = gen_line - it["gen_start"]
                 sl = lm[k] if k < len(lm) else it["src_line"]
